@@ -78,7 +78,12 @@ Definition u_with_tuples (u : uep) (ts : list nat) : uep :=
       (u_owner u) (u_drain u) (u_cs_closed u) ts.
 
 Definition is_expired (u : uep) (now : nat) : bool := (0 <? u_exp u) && (u_exp u <=? now).
-Definition gen_current (s : pstate) (u : uep) : bool := u_gen u =? p_epoch s (u_dialer u).
+(* u_gen encodes the endpoint's view of its dialer's epoch counter object: S (S n) = generation n captured from
+   the counter currently installed for the dialer; 1 / 0 = the counter object was dropped by a pool Reset
+   while the endpoint still compared equal / unequal to it (it stays so for ever: nobody increments an
+   orphaned counter, and new endpoints get a new counter). *)
+Definition gen_current (s : pstate) (u : uep) : bool :=
+  match u_gen u with 0 => false | 1 => true | S (S n) => n =? p_epoch s (u_dialer u) end.
 Definition survives (u : uep) : bool := u_sent u.
 Definition stale (s : pstate) (u : uep) : bool := u_dead u || (negb (gen_current s u) && negb (survives u)).
 
@@ -156,7 +161,7 @@ Definition ep_create (s : pstate) (k d g out : nat) : pstate * eres :=
            (p_drainc s) (p_now s), mkER None true 2)
   | _ =>
       let e := length (p_eps s) in
-      let u := mkU k d false (p_now s + nat_timeout) false false 0 false (p_epoch s d) true g (Some g) false [] in
+      let u := mkU k d false (p_now s + nat_timeout) false false 0 false (S (S (p_epoch s d))) true g (Some g) false [] in
       (mkP (fset (p_pool s) k (Some e)) (p_eps s ++ [u]) (p_handles s ++ [e]) (p_epoch s) (S (p_dials s)) (p_tr s) (p_kdel s)
            (fset (p_drainc s) g (S (p_drainc s g))) (p_now s), mkER (Some e) true 0)
   end.
@@ -241,8 +246,9 @@ Definition pstep (s : pstate) (o : pop) : pstate * eres :=
                                                   then ep_close (set_pool s (fset (p_pool s) (u_key u) None)) e else s
                                       | None => s end) (seq 0 (length (p_eps s))) s in
       (mkP (p_pool s1) (map (fun u => mkU (u_key u) (u_dialer u) (u_failed u) (u_exp u) (u_dead u) (u_closed u) (u_conn_closes u)
-                                          (u_sent u) (u_gen u) false (u_owner u) (u_drain u) (u_cs_closed u) (u_tuples u)) (p_eps s1))
-           (p_handles s1) (fun _ => 0) (p_dials s1) (p_tr s1) (p_kdel s1) (p_drainc s1) (p_now s1), none_res)
+                                          (u_sent u) (if gen_current s1 u then 1 else 0) false (u_owner u) (u_drain u)
+                                          (u_cs_closed u) (u_tuples u)) (p_eps s1))
+           (p_handles s1) (p_epoch s1) (p_dials s1) (p_tr s1) (p_kdel s1) (p_drainc s1) (p_now s1), none_res)
   | PSweep =>
       (fold_left (fun s e => match nth_error (p_eps s) e with
                              | Some u => if opt_is (p_pool s (u_key u)) e
